@@ -1,9 +1,11 @@
 """C02 -- storm-rise matching is stable and storm-optimal"""
 
 import itertools
+import os
+import sqlite3
 
 from .. import classify_common as cc
-from .. import core, data, gen_series, instrument, oracle_classify
+from .. import core, data, faults, gen_series, instrument, oracle_classify
 
 PROPERTY = 'C02'
 LEVEL = 'exploration'
@@ -18,7 +20,10 @@ RULE = (
     '(duration difference in steps, start offset). (c) the G-series corpus through classify with the matching '
     'walker (candidates recomputed from stored rainfall / water level; no blocking pair; storm-optimal when strict) '
     'and data-level order variation (0/1/3/7/8/64 dry flat steps prepended: pairing must be the same up to the '
-    'shift).  Non-trivial: instance in which deferred acceptance performs >= 1 rejection or displacement; distinct '
+    'shift). (d) classification through the command line of records with several data intervals, stopped by an injected '
+    'error / SQLite interrupt at a chosen internal statement (every statement of some cases, sampled otherwise): '
+    'the dataset file afterwards either holds no classification at all or a matching that passes the same walker '
+    '(a recorded matching is never the matching of the first data intervals only).  Non-trivial: instance in which deferred acceptance performs >= 1 rejection or displacement; distinct '
     'by canonical preference lists / dataset pattern.'
 )
 ASSUMPTIONS = [
@@ -26,8 +31,8 @@ ASSUMPTIONS = [
     'a tie in a preference admits any weakly stable outcome',
 ]
 SIZES = {
-    'quick': dict(prefs=16000, intervals=4000, n=2000, cli=40, shift=120),
-    'thorough': dict(prefs=160000, intervals=40000, n=32000, cli=800, shift=1600, field=48),
+    'quick': dict(prefs=16000, intervals=4000, n=2000, cli=40, shift=120, stopped=8),
+    'thorough': dict(prefs=160000, intervals=40000, n=32000, cli=800, shift=1600, field=48, stopped=96),
 }
 REQUIRED = {
     tier: {
@@ -44,6 +49,8 @@ REQUIRED = {
         'datasets-with-strict-preferences': 50,
         'datasets-with-tied-preferences': 20,
         'shift:variants-compared': 20,
+        'stopped:classifications-stopped-at-an-internal-statement': 40,
+        'stopped:stops-after-a-data-interval-was-written': 10,
         'contract-evaluations:spowtd.classify.find_stable_matching': 500,
     }
     for tier in ('quick', 'thorough')
@@ -422,6 +429,91 @@ def check_shift_case(ctx, case):
         rec.mark_nontrivial(core.digest(('shift', case['rain'], case['z'], case['sthr'], case['jthr'])))
 
 
+def check_stopped_case(ctx, rng, case, index):
+    """(d): classify through the CLI, stopped at internal statements"""
+    rec = ctx.rec
+    rec.case()
+    paths = data.write_case_files(case, ctx.workdir, 'c02s{}'.format(index))
+    base = os.path.join(ctx.workdir, 'c02s{}_base.sqlite3'.format(index))
+    work = os.path.join(ctx.workdir, 'c02s{}_work.sqlite3'.format(index))
+    for f in (base, work):
+        if os.path.exists(f):
+            os.remove(f)
+    status, exc = data.cli(['load', base, '-p', paths[0], '-e', paths[1], '-z', paths[2], '--timezone', 'UTC'])
+    if exc is not None or status != 0:
+        rec.hit('stopped:record-not-loaded')
+        return
+    argv = ['classify', 'X', '-s', repr(case['sthr']), '-j', repr(case['jthr'])]
+
+    def step(at=None, mode=None):
+        import gc
+
+        for f in (work, work + '-journal'):
+            if os.path.exists(f):
+                os.remove(f)
+        import shutil
+
+        shutil.copy(base, work)
+        faults.reset(at, mode)
+        try:
+            status, exc = data.cli([work if a == 'X' else a for a in argv])
+        finally:
+            n, log, fired = faults.STATE['n'], list(faults.STATE['log']), faults.STATE['fired']
+            faults.disable()
+        if exc is not None:
+            exc.__traceback__ = None
+        exc_desc = core.describe_exception(exc) if exc is not None else None
+        del exc
+        gc.collect()
+        return status, exc_desc, n, log, fired
+
+    status, exc_desc, N, log, _ = step()
+    if exc_desc is not None or status != 0:
+        rec.hit('stopped:clean-classification-raised (C01 reports it)')
+        return
+    connection = faults.plain_connect(work)
+    n_intervals = connection.execute('SELECT count(*) FROM zeta_interval').fetchone()[0]
+    n_links = connection.execute('SELECT count(*) FROM zeta_interval_storm').fetchone()[0]
+    findings, _ = oracle_classify.walk(connection, case['sthr'], case['jthr'])
+    connection.close()
+    if any(p == PROPERTY for p, _, _ in findings):
+        return  # the corpus workload reports it
+    rec.hit('stopped:records-classified-cleanly')
+    if n_links >= 2:
+        rec.hit('stopped:records-with-2+-matched-pairs')
+    points = list(range(1, N + 1))
+    if len(points) > 40:
+        points = sorted(rng.sample(points, 40))
+    for at in points:
+        for mode in ('exc-before', 'interrupt'):
+            status, exc_desc, n, log2, fired = step(at, mode)
+            if not fired:
+                continue
+            rec.hit('stopped:classifications-stopped-at-an-internal-statement')
+            if any('INSERT INTO zeta_interval' in sql.replace('OR IGNORE ', '') for _, sql in log2[:at - 1]):
+                rec.hit('stopped:stops-after-a-data-interval-was-written')
+            connection = faults.plain_connect(work)
+            try:
+                thr = connection.execute('SELECT count(*) FROM thresholds').fetchone()[0]
+                recorded = {t: connection.execute('SELECT count(*) FROM {}'.format(t)).fetchone()[0]
+                            for t in ('storm', 'zeta_interval', 'zeta_interval_storm')}
+                if thr == 0 and not any(recorded.values()):
+                    rec.hit('stopped:nothing-recorded-after-the-stop')
+                    continue
+                rec.hit('stopped:a-classification-is-recorded-after-the-stop')
+                findings, _ = oracle_classify.walk(connection, case['sthr'], case['jthr'])
+            finally:
+                connection.close()
+            for p, key, w in findings:
+                if p == PROPERTY:
+                    w = dict(w)
+                    w.update(stopped_at=at, mode=mode, statement=log2[at - 1][1] if at <= len(log2) else None, recorded=recorded)
+                    rec.violation('after-a-stopped-classification:' + key, w, dict(case, stopped_at=at, stop_mode=mode), 'stopped')
+                    return
+    if n_intervals >= 2 and n_links >= 2:
+        rec.mark_nontrivial(core.digest(('stopped', case['rain'], case['z'], case['sthr'], case['jthr'])))
+
+
 # ---------------------------------------------------------------------------
 
 
@@ -465,6 +557,16 @@ def run(ctx):
         force = ['chain', 'storm_two_rises', 'rise_two_storms', 'displace_exhaust', 'long', None][i % 6]
         case = gen_series.gen(rng, force=force)
         check_shift_case(ctx, case)
+    # (d) stopped classifications
+    rng = ctx.rng('stopped')
+    faults.install()
+    try:
+        for i in range(ctx.share(s['stopped'])):
+            case = gen_series.gen(rng, force=['many_stretches', 'chain', 'rise_many_storms'][i % 3])
+            check_stopped_case(ctx, rng, case, i)
+    finally:
+        faults.uninstall()
+        faults.disable()
 
 
 def replay(ctx, case, module=None):
@@ -480,5 +582,12 @@ def replay(ctx, case, module=None):
         check_intervals_instance(ctx, rng, pairs, case)
     elif module == 'shift':
         check_shift_case(ctx, case)
+    elif module == 'stopped':
+        faults.install()
+        try:
+            check_stopped_case(ctx, rng, {k: v for k, v in case.items() if k not in ('stopped_at', 'stop_mode')}, 0)
+        finally:
+            faults.uninstall()
+            faults.disable()
     else:
         cc.replay_case(ctx, PROPERTY, case)
